@@ -5,7 +5,7 @@ import random
 
 from vf.core.result import Res
 from vf.gen.ir import E, num, source, sym
-from vf.progcheck import nodetap, run_ir
+from vf.progcheck import _coalesce, nodetap, run_ir
 from vf.ref import mapping as rm
 from vf.taps.nodetap import analyse
 
@@ -230,6 +230,8 @@ def check_program(res: Res, p: dict) -> None:
     exp = p["expected"]
     off = rm.offset(cfg, p["addr"])
     blocks = [(a, bytes(b)) for a, b in r.blocks]
+    if not p.get("ips_records"):
+        blocks = _coalesce(blocks)          # one run of bytes, however it is cut into calls
     if p.get("ips_records"):
         # the records of the included patch are written where the patch says; what remains is the program's own data, in one run
         res.count("with_included_patch")
